@@ -101,6 +101,25 @@ let tok_str = function
   | TCb s -> "C{:" ^ string_of_int (int_of_n s) | TCe s -> "}C:" ^ string_of_int (int_of_n s)
   | TLog z -> "LOG:" ^ string_of_int (int_of_z z)
   | TStable -> "STABLE" | TComplB -> "COMPL{" | TComplE -> "}COMPL"
+  | TDiag d -> "DIAG:" ^ string_of_int (int_of_n d)
+
+let after s k = String.sub s k (String.length s - k)
+let starts s p = String.length s >= String.length p && String.sub s 0 (String.length p) = p
+let rc_code = function
+  | "FINISHED" -> 0 | "INITIALIZED" -> 1 | "MICROSTEPPED" -> 2 | "MACROSTEPPED" -> 3 | "IDLE" -> 4 | "CANCELLED" -> 5 | _ -> 9
+let tok_of (s:string) : tok =
+  let num k = n_of_int (int_of_string (after s k)) in
+  if s = "MS{" then TMsB else if s = "}MS" then TMsE
+  else if s = "STABLE" then TStable else if s = "COMPL{" then TComplB else if s = "}COMPL" then TComplE
+  else if starts s "RET:" then TRet (n_of_int (rc_code (after s 4)))
+  else if starts s "CFG:" then TCfg []
+  else if starts s "EV:" then TEv (bytes_of_hex (after s 3))
+  else if starts s "X{:" then TXb (num 3) else if starts s "}X:" then TXe (num 3)
+  else if starts s "T{:" then TTb (num 3) else if starts s "}T:" then TTe (num 3)
+  else if starts s "E{:" then TEb (num 3) else if starts s "}E:" then TEe (num 3)
+  else if starts s "C{:" then TCb (num 3) else if starts s "}C:" then TCe (num 3)
+  else if starts s "LOG:" then TLog (z_of_int (try int_of_string (after s 4) with _ -> 0))
+  else failwith ("token " ^ s)
 
 let bits s i = String.length s > i && s.[i] = '1'
 
@@ -114,6 +133,19 @@ let handle (line:string) : string =
       String.concat " " (List.map tok_str toks) ^ " | " ^
       String.concat " " (List.map (fun (v, z) -> Printf.sprintf "%d=%d" v z)
                            (List.sort compare (List.map (fun (v, z) -> (int_of_n v, int_of_z z)) store)))
+  | Atom "spec" :: Atom late :: Atom fuel :: tree :: L evs :: _ ->
+      let (toks, store) = run_spec (late = "1") (tree_of tree)
+          (List.map (fun e -> bytes_of_hex (atom e)) evs) (nat_of_int (int_of_string fuel)) in
+      String.concat " " (List.map tok_str toks) ^ " | " ^
+      String.concat " " (List.map (fun (v, z) -> Printf.sprintf "%d=%d" v z)
+                           (List.sort compare (List.map (fun (v, z) -> (int_of_n v, int_of_z z)) store)))
+  | Atom "legal" :: Atom late :: tree :: cfgs ->
+      let t = tree_of tree in
+      String.concat "" (List.map (function L l -> b2s (legal_sids (late = "1") t (List.map nat_n l)) | _ -> "?") cfgs)
+  | Atom "wf" :: toks ->
+      let tl = List.map (fun a -> tok_of (atom a)) toks in
+      if wf_traceb tl then "1" else
+        (match wf_first_bad [] tl O with Some k -> "0 " ^ string_of_int (int_of_nat k) | None -> "0 ?")
   | _ -> "ERR unknown command"
 
 let () = main_loop handle
